@@ -21,6 +21,53 @@ LAYERS = "yowsup/layers/__init__.py"
 UP_CALLS = ("toUpper", "receive", "_flush_incoming_buffer")
 
 
+def emitted_events(repo, net, cb):
+    """abstract execution of the network layer's callback `cb` from every (state, connected) pair
+    -> [(event name, detached?, [starting states])] or None when the execution cannot be followed"""
+    from ..absint import Interp, _Raise, flat_effects, NeedAtom, Budget, DomainGrew
+    from ..consts import Evaluator, alts
+    from ..layers import LayerRunner
+    ev = Evaluator(repo, net.module, net)
+    states = []
+    for n in sorted(net.consts):
+        if n.startswith("STATE_"):
+            a = alts(ev.class_const(net, n))
+            if a and len(a) == 1:
+                states.append(a[0])
+    if not states:
+        return None
+    found = {}
+    for st in states:
+        for connected in (True, False):
+            runner = LayerRunner(repo)
+            it = Interp(repo, {}, {}, hooks=runner.hooks())
+            it.layer_base = runner.base
+            it.pure_depth = 0
+            layer = runner.make_layer(it, net)
+            layer[1].fields["state"] = ("c", st)
+            layer[1].fields["connected"] = ("c", connected)
+            layer[1].fields["_dispatcher"] = ("ext", "dispatcher", [])
+            it.effects[:] = []
+            try:
+                it.method_call(layer, cb, [], {}, {"@module": net.module, "@owner": net}, 0, None)
+            except _Raise:
+                pass
+            except (NeedAtom, Budget, DomainGrew):
+                return None
+            for e in flat_effects(it.effects):
+                if e[0] in ("EMIT", "BCAST"):
+                    v = e[1]
+                    if v[0] != "obj":
+                        return None
+                    name = v[1].fields.get("name")
+                    det = v[1].fields.get("detached")
+                    if name is None or name[0] != "c" or det is None or det[0] != "c":
+                        return None
+                    key = (name[1], bool(det[1]))
+                    found.setdefault(key, []).append((st, connected))
+    return [(k[0], k[1], v) for k, v in sorted(found.items())]
+
+
 def reach_self_calls(repo, cls, start, limit=60):
     """methods of cls (incl. inherited) reachable from `start` through self.m() calls (callbacks passed as
     arguments are not synchronous calls and are not followed)"""
@@ -288,6 +335,16 @@ def run(ctx):
                         sync_cbs.setdefault(n.func.attr, "%s.%s" % (dc.name, name))
     n_emit = 0
     for cb, via in sorted(sync_cbs.items()):
+        ex = emitted_events(repo, net, cb)
+        if ex is not None:
+            # decided by executing the callback from every (state, connected) pair: each event it raises is looked at as
+            # the object it is at the moment it is raised, however it was put together
+            for (evname, detached, states) in ex:
+                n_emit += 1
+                ctx.check("C12.order", detached, where(net.relpath, "YowNetworkLayer." + cb, None), "event %s raised by %s" % (evname, cb),
+                          "this event can be raised from inside a send (%s reports %s synchronously) while every upper layer's lock is held, and it is not detached: the handlers above (reconnect, send) run under those locks - the failed send never returns and every other sender blocks" % (via, cb),
+                          "detached: delivered by the stack loop, not under the sender's locks (%d starting states)" % len(states))
+            continue
         for name, (k, fn) in reach_self_calls(repo, net, cb).items():
             for n in ast.walk(fn):
                 if isinstance(n, ast.Call) and is_self_attr(n.func) and n.func.attr in ("emitEvent", "broadcastEvent") and n.args:
